@@ -38,7 +38,7 @@ CanonWhy(e) ==
   ELSE LET R == [sp \in DOMAIN RendOf(e.nums) |-> e.nums[RendOf(e.nums)[sp]].r] IN
        IF ~UniqueKeys(e.v) THEN "certificate"
        ELSE IF e.out # Canon(e.v, R) THEN "structure"
-       ELSE IF e.text # Print(e.out, Compact) THEN "text"
+       ELSE IF e.text # Render(e.out, Compact) THEN "text"
        ELSE IF e.again # e.text THEN "idempotence"
        ELSE IF \E i \in 1..Len(e.objs) : ~IdxOK(e.objs[i]) THEN "index"
        ELSE IF ~e.queries_ok THEN "queries"
